@@ -74,6 +74,7 @@ type actor struct {
 	openRel         int    // index into w.relOps of the release whose end is not yet known, -1
 	pos             string // filled by settle for callers blocked inside the pool
 	starvedReported bool
+	releasing       *fakeConn // connection this caller is releasing right after using it (nil if unknown)
 	creating        *fakeConn // connection constructed by this actor in its current acquire iteration
 
 	conn *fakeConn // runner
@@ -116,7 +117,8 @@ type fakeConn struct {
 	runReturned bool
 	deadAt      int64 // logical time of the pool's death accounting (pool.dead.done), 0 = not accounted
 	lastUseEnd  int64
-	released    int // number of releases seen by the release hook after a use of this connection
+	transferAt  int64 // logical time of the last pool.transfer.unlocked hit by the releaser of this connection (under the pool mutex)
+	released    int   // number of releases seen by the release hook after a use of this connection
 }
 
 func (f *fakeConn) Ready() <-chan struct{}         { return f.readyCh }
@@ -390,6 +392,7 @@ func (w *world) hook(point string) {
 		if point != hpCounted {
 			a.creating = nil
 		}
+		a.releasing = nil
 		// iterStart is a lower bound of the start of the acquire iteration the actor
 		// is in: a hook of a later iteration proves the previous hook preceded the retry.
 		if point == hpPop || point == hpCounted || point == hpWait {
@@ -403,6 +406,15 @@ func (w *world) hook(point string) {
 	case hpRelease:
 		if a.lastConn != nil {
 			a.lastConn.released++
+		}
+		a.releasing = nil
+		if a.kind == akCaller && a.lastHook == "" && a.inInvoke == nil {
+			a.releasing = a.lastConn // DC.Invoke releases the connection it has just used
+		}
+	case hpTransfer:
+		if a.releasing != nil {
+			a.releasing.transferAt = t
+			a.releasing = nil
 		}
 		if a.kind == akAnon {
 			w.anonReleases++
@@ -437,6 +449,12 @@ func (w *world) checkDeadHandout(a *actor, f *fakeConn, t int64) {
 		case f.uses > 0 && f.deadAt < f.lastUseEnd:
 			w.violate("C27", "dead-handout|transfer-of-accounted-dead-connection",
 				fmt.Sprintf("K%d: death accounted at t=%d, previous use ended t=%d (release began after), handed to waiter %s at t=%d", f.idx, f.deadAt, f.lastUseEnd, a.name(), t))
+		case f.transferAt > f.lastUseEnd && f.deadAt < f.transferAt:
+			// Both events happen while holding the pool mutex (end of dead(), transfer
+			// inside release()), so their order is the order of the critical sections:
+			// the transferring release ran entirely after the death accounting.
+			w.violate("C27", "dead-handout|transfer-of-accounted-dead-connection",
+				fmt.Sprintf("K%d: death accounted under the pool mutex at t=%d (pool.dead.done), transfer decided under the same mutex at t=%d (pool.transfer.unlocked), handed to waiter %s and invoked at t=%d", f.idx, f.deadAt, f.transferAt, a.name(), t))
 		case f.deadAt < a.iterStart:
 			w.violate("C27", "dead-handout|transfer-of-accounted-dead-connection",
 				fmt.Sprintf("K%d: death accounted at t=%d, acquire iteration of waiter %s started at t>=%d (registered after), handed over and invoked at t=%d", f.idx, f.deadAt, a.name(), a.iterStart, t))
